@@ -326,7 +326,10 @@ pub fn pre_case() -> BoxedStrategy<PreCase> {
     let line = prop::collection::vec(tok, 0..7).prop_map(|v| {
         let mut out: Vec<PTok> = vec![];
         for t in v {
-            if matches!(t, PTok::Word { .. }) && matches!(out.last(), Some(PTok::Word { .. })) {
+            // two adjacent words stay glued (one long word crossing an inline-element boundary) when
+            // the second one is wrapped in an element; otherwise they are separated by a space
+            let wrapped = matches!(t, PTok::Word { tag, .. } if !ITAGS[tag as usize % ITAGS.len()].is_empty());
+            if matches!(t, PTok::Word { .. }) && matches!(out.last(), Some(PTok::Word { .. })) && !wrapped {
                 out.push(PTok::Spaces(1));
             }
             out.push(t);
